@@ -30,16 +30,16 @@ var errSlashedProposer = fmt.Errorf("proposer is slashed")
 
 // Config: everything a run is a function of (besides the code).
 type Config struct {
-	Seed        uint64   `json:"seed"`
-	Validators  int      `json:"validators"`
-	Slots       int      `json:"slots"`
-	Nodes       int      `json:"nodes"`
-	ForkEpochs  [4]uint64 `json:"fork_epochs"` // altair bellatrix capella deneb (2^64-1 = never)
-	SPE         uint64   `json:"slots_per_epoch"`
-	Knobs       map[string]uint64 `json:"knobs"`    // preset/config overrides by name
-	Features    []string `json:"features"`         // enabled workload / fault kinds
-	Participation int    `json:"participation"`    // percent of committee members that attest
-	SkipPct     int      `json:"skip_pct"`         // percent of slots without a block
+	Seed          uint64            `json:"seed"`
+	Validators    int               `json:"validators"`
+	Slots         int               `json:"slots"`
+	Nodes         int               `json:"nodes"`
+	ForkEpochs    [4]uint64         `json:"fork_epochs"` // altair bellatrix capella deneb (2^64-1 = never)
+	SPE           uint64            `json:"slots_per_epoch"`
+	Knobs         map[string]uint64 `json:"knobs"`         // preset/config overrides by name
+	Features      []string          `json:"features"`      // enabled workload / fault kinds
+	Participation int               `json:"participation"` // percent of committee members that attest
+	SkipPct       int               `json:"skip_pct"`      // percent of slots without a block
 }
 
 func (c *Config) has(f string) bool {
@@ -146,12 +146,73 @@ func GenConfig(seed uint64, opt core.Options) *Config {
 	if rng.Chance(1, 4) {
 		c.Knobs["EJECTION_BALANCE"] = 31_000_000_000
 	}
+	switch opt.Params["director"] {
+	case "leak":
+		// > 1/3 of the stake is offline for the whole run: inactivity leak, drained balances, ejections
+		c.Participation = []int{20, 35, 50, 60}[rng.Intn(4)]
+		c.Slots = rng.Range(int(c.SPE)*7, int(c.SPE)*12)
+		if opt.Tier == "thorough" {
+			c.Slots = rng.Range(int(c.SPE)*10, int(c.SPE)*24)
+		}
+		c.SkipPct = 0
+		c.Knobs["INACTIVITY_PENALTY_QUOTIENT"] = []uint64{4, 16, 64}[rng.Intn(3)]
+		c.Knobs["MIN_EPOCHS_TO_INACTIVITY_PENALTY"] = 1
+		c.Knobs["EJECTION_BALANCE"] = []uint64{31_000_000_000, 30_000_000_000, 16_000_000_000}[rng.Intn(3)]
+		c.Knobs["EXIT_RATE"] = 0
+	case "churn":
+		// exit storm and deposit flood against a churn limit of 1-2: queues spanning epochs
+		c.Participation = 100
+		c.Slots = rng.Range(int(c.SPE)*7, int(c.SPE)*12)
+		if opt.Tier == "thorough" {
+			c.Slots = rng.Range(int(c.SPE)*10, int(c.SPE)*24)
+		}
+		c.Knobs["MIN_PER_EPOCH_CHURN_LIMIT"] = uint64(rng.Range(1, 2))
+		c.Knobs["CHURN_LIMIT_QUOTIENT"] = 65536
+		c.Knobs["MAX_PER_EPOCH_ACTIVATION_CHURN_LIMIT"] = uint64(rng.Range(1, 2))
+		c.Knobs["SHARD_COMMITTEE_PERIOD"] = 0
+		c.Knobs["EPOCHS_PER_ETH1_VOTING_PERIOD"] = 1
+		c.Knobs["MAX_DEPOSITS"] = 16
+		c.Knobs["MAX_VOLUNTARY_EXITS"] = 16
+		c.Knobs["EXIT_RATE"] = 3
+		has := map[string]bool{}
+		for _, f := range c.Features {
+			has[f] = true
+		}
+		for _, f := range []string{"exits", "deposits", "low_balances"} {
+			if !has[f] {
+				c.Features = append(c.Features, f)
+			}
+		}
+	}
+	if opt.Params["preset"] == "mainnet" {
+		// the built-in mainnet preset as is (only the fork schedule and genesis time are the run's)
+		c.Knobs = map[string]uint64{"PRESET_MAINNET": 1}
+		c.SPE = 32
+		c.Validators = []int{64, 96, 128}[rng.Intn(3)]
+		c.Slots = rng.Range(40, 100)
+		c.Nodes = rng.Range(1, 2)
+		e := uint64(0)
+		for i := range c.ForkEpochs {
+			if rng.Chance(1, 3) {
+				e++
+			}
+			c.ForkEpochs[i] = e
+			if e > 2 {
+				c.ForkEpochs[i] = farFuture
+			}
+		}
+	}
 	return c
 }
 
 // BuildSpec: a copy of the minimal preset with the run's overrides.
 func (c *Config) BuildSpec() *common.Spec {
 	s := *configs.Minimal
+	if c.Knobs["PRESET_MAINNET"] == 1 {
+		s = *configs.Mainnet
+		s.MIN_GENESIS_TIME = configs.Minimal.MIN_GENESIS_TIME
+		s.GENESIS_DELAY = configs.Minimal.GENESIS_DELAY
+	}
 	s.SLOTS_PER_EPOCH = common.Slot(c.SPE)
 	s.ALTAIR_FORK_EPOCH = common.Epoch(c.ForkEpochs[0])
 	s.BELLATRIX_FORK_EPOCH = common.Epoch(c.ForkEpochs[1])
@@ -246,37 +307,37 @@ type blockRec struct {
 }
 
 type World struct {
-	cfg   *Config
-	spec  *common.Spec
-	keys  *keyring
-	rng   *core.Rng
-	dec   *beacon.ForkDecoder
-	gvr   common.Root
+	cfg         *Config
+	spec        *common.Spec
+	keys        *keyring
+	rng         *core.Rng
+	dec         *beacon.ForkDecoder
+	gvr         common.Root
 	genesisTime common.Timestamp
 
-	blocks   map[common.Root]*blockRec
-	order    []*blockRec
-	head     *blockRec
-	genesis  *blockRec
+	blocks  map[common.Root]*blockRec
+	order   []*blockRec
+	head    *blockRec
+	genesis *blockRec
 
 	// pending operations (the harness's own pools; the repo's pools are checked by poolsim)
-	atts       []*phase0.Attestation
-	attDom     map[*phase0.Attestation][32]byte
-	attIn      map[*phase0.Attestation][]common.Root // blocks that already carry it
-	syncDom    map[common.Root][32]byte
-	syncMsgs   map[common.Root][]int // block root -> sync committee POSITIONS that signed
-	syncSigs   map[common.Root]map[int]common.BLSSignature
-	exits      []phase0.SignedVoluntaryExit
-	pslash     []phase0.ProposerSlashing
-	aslash     []phase0.AttesterSlashing
-	blsChanges []common.SignedBLSToExecutionChange
-	deposits   *depositTree
-	depDatas   []common.DepositData
-	exited     map[int]bool
-	slashedV   map[int]bool
-	changedV   map[int]bool
-	payloadN   uint64
-	eth1Vote   *common.Eth1Data
+	atts           []*phase0.Attestation
+	attDom         map[*phase0.Attestation][32]byte
+	attIn          map[*phase0.Attestation][]common.Root // blocks that already carry it
+	syncDom        map[common.Root][32]byte
+	syncMsgs       map[common.Root][]int // block root -> sync committee POSITIONS that signed
+	syncSigs       map[common.Root]map[int]common.BLSSignature
+	exits          []phase0.SignedVoluntaryExit
+	pslash         []phase0.ProposerSlashing
+	aslash         []phase0.AttesterSlashing
+	blsChanges     []common.SignedBLSToExecutionChange
+	deposits       *depositTree
+	depDatas       []common.DepositData
+	exited         map[int]bool
+	slashedV       map[int]bool
+	changedV       map[int]bool
+	payloadN       uint64
+	eth1Vote       *common.Eth1Data
 	eth1VotePeriod uint64
 
 	res *core.Result
@@ -706,22 +767,28 @@ func (w *World) produce(parent *blockRec, slot uint64) (*blockRec, error) {
 	var ps phase0.ProposerSlashings
 	var as phase0.AttesterSlashings
 	busy := map[int]bool{} // one operation per validator per block
-	if w.cfg.has("exits") && w.rng.Chance(1, 3) && epoch >= uint64(w.spec.SHARD_COMMITTEE_PERIOD) {
-		v := w.rng.Intn(w.cfg.Validators)
-		if !w.exited[v] && !w.slashedV[v] && w.activeAt(st, v, epoch) && w.notExiting(st, v, epoch) && uint64(len(exits)) < uint64(w.spec.MAX_VOLUNTARY_EXITS) {
-			ex := phase0.VoluntaryExit{Epoch: common.Epoch(epoch), ValidatorIndex: common.ValidatorIndex(v)}
-			exFork := fork
-			var dom [32]byte
-			if fidx >= 4 {
-				dom = computeDomain(common.DOMAIN_VOLUNTARY_EXIT, w.spec.CAPELLA_FORK_VERSION, w.gvr) // EIP-7044
-			} else {
-				dom = domainFor(exFork, w.gvr, common.DOMAIN_VOLUNTARY_EXIT, common.Epoch(epoch))
+	nExits := 1
+	if r := w.cfg.Knobs["EXIT_RATE"]; r > 0 {
+		nExits = int(r)
+	}
+	for xi := 0; xi < nExits; xi++ {
+		if w.cfg.has("exits") && (w.rng.Chance(1, 3) || nExits > 1) && epoch >= uint64(w.spec.SHARD_COMMITTEE_PERIOD) {
+			v := w.rng.Intn(w.cfg.Validators)
+			if !w.exited[v] && !w.slashedV[v] && !busy[v] && w.activeAt(st, v, epoch) && w.notExiting(st, v, epoch) && uint64(len(exits)) < uint64(w.spec.MAX_VOLUNTARY_EXITS) {
+				ex := phase0.VoluntaryExit{Epoch: common.Epoch(epoch), ValidatorIndex: common.ValidatorIndex(v)}
+				exFork := fork
+				var dom [32]byte
+				if fidx >= 4 {
+					dom = computeDomain(common.DOMAIN_VOLUNTARY_EXIT, w.spec.CAPELLA_FORK_VERSION, w.gvr) // EIP-7044
+				} else {
+					dom = domainFor(exFork, w.gvr, common.DOMAIN_VOLUNTARY_EXIT, common.Epoch(epoch))
+				}
+				sig := w.keys.sign(v, signingRoot(ex.HashTreeRoot(tree.GetHashFn()), dom))
+				exits = append(exits, phase0.SignedVoluntaryExit{Message: ex, Signature: sig})
+				w.exited[v] = true
+				busy[v] = true
+				kinds |= kExit
 			}
-			sig := w.keys.sign(v, signingRoot(ex.HashTreeRoot(tree.GetHashFn()), dom))
-			exits = append(exits, phase0.SignedVoluntaryExit{Message: ex, Signature: sig})
-			w.exited[v] = true
-			busy[v] = true
-			kinds |= kExit
 		}
 	}
 	if w.cfg.has("proposer_slashings") && w.rng.Chance(1, 6) {
